@@ -217,6 +217,46 @@ def twin_c13_edge(k):
     pairs = [(len(pre), len(bpre))] + [(len(pre) + 1 + i, len(bpre) + 1 + i) for i in range(len(post))]
     return {"a": a, "b": b, "pairs": pairs, "keys": None, "events": True, "ret": True, "nontrivial": len(post)}
 
+def twin_reentrant_clear(j, ext, hseed):
+    """C13 / C09 with the reset made from INSIDE a callback: run A is a fresh parser, run B has a history (every value
+    different from the ones that follow, so the same callbacks fire); then both receive group G — twice under the extended check —
+    during which callback j calls rdsparser_clear, and then a tail of single and repeated receptions. What the reset leaves
+    behind must not depend on what was there before it: all states from G on are equal."""
+    bb = (5 << 5) | (1 << 10)
+    G = {0: P(0x3ABC, 0x0000 | bb | (1 << 4) | (1 << 3), 0x0A14, 0x4142), 1: None, 2: None, 3: None, 4: None, 7: None, 8: None,
+         5: P(0x3ABC, 0x1000 | bb, 0x00E0, 0), 6: None, 9: P(0x3ABC, 0x2000 | bb, 0x4142, 0x4344), 10: P(0x3ABC, 0xA000 | bb, 0x4142, 0x4344),
+         11: P(0x3ABC, 0x4000 | bb | 1, 0xD0C8, 0x1000 | (30 << 6))}
+    g = G[j] or (G[5] if j == 6 else G[0])
+    r = random.Random(hseed)
+    hb = (2 << 5)
+    hist = []
+    for i in range(10):
+        k = r.randrange(6)
+        c, d = r.randrange(30, 60) << 8 | r.randrange(30, 60), 0x7878 + r.randrange(5)
+        hist.append([P(0x1111, 0x0000 | hb | (i % 4), c, d), P(0x1111, 0x1000 | hb, 0x00E3, 0), P(0x1111, 0x2010 | hb | (i % 16), d, d),
+                     P(0x1111, 0xA000 | hb | (i % 2), d, d), P(0x1111, 0x4000 | hb | 1, 0xD0C8, 0x2000 | (i << 6)),
+                     P(0x1111, 0x0000 | hb | (1 << 3), c, d)][k])
+    rep = 2 if ext else 1
+    hist = [x for x in hist for _ in range(rep)]
+    tail = [P(0x3ABC, 0x0000 | (7 << 5) | 1, 0x3246, 0x4344), P(0x3ABC, 0x1000 | (7 << 5), 0x00E1, 0),
+            P(0x3ABC, 0x0000 | (7 << 5) | 1, 0x3246, 0x4344), P(0x3ABC, 0x1000 | (7 << 5), 0x00E1, 0),
+            P(0x3ABC, 0x2010 | (7 << 5) | 2, 0x4545, 0x4646), P(0x3ABC, 0xA000 | (7 << 5), 0x4747, 0x4848),
+            P(0x1111, 0x0000 | hb | (1 << 3), 0x2828, 0x7879), P(0x1111, 0x1000 | hb, 0x00E3, 0), P(0x1111, 0x0000 | hb | 2, 0x1E1F, 0x7879)]
+    # first of all the history's own groups, each once: whatever survived the reset shows at once
+    seen = []
+    for x in hist:
+        if x not in seen: seen.append(x)
+    tail = seen + tail
+    head = ["new"] + ALL_CBS + ["c 1 0 1", "x %d" % ext]
+    mid = ["ri %d" % (5000 + j)] + [g] * rep + ["ri 0"]
+    a = head + mid + tail
+    b = head + hist + mid + tail
+    off = len(hist)
+    first = len(head) + len(mid) - 2        # the call during which the reset happens
+    pairs = [(i, i + off) for i in range(first, len(a))]
+    return {"a": a, "b": b, "pairs": pairs, "keys": None, "events": False, "ret": True, "nontrivial": len(tail),
+            "require_event": (first, first + off, j)}
+
 # ---- C14 ---------------------------------------------------------------------------------
 def decode_hex(s):
     if len(s) not in (16, 18): return None
@@ -294,13 +334,42 @@ def twin_c15(seed, n):
         a.append("q"); b.append("ri %d" % (1000 + 100 * j + 4 * k + 1 + 2 * ((j + k) % 2)))
         a += stim; b += stim
         a.append("q"); b.append("ri 0")
+    # registration gaps: traffic that keeps every callback busy (each value twice in a row, so that the extended check confirms it;
+    # clock times one minute apart); run A has everything registered throughout, run B removes callback k for two steps in the
+    # middle and puts it back. What a callback reports once it is registered in both runs again must not depend on the gap.
+    for ext in (0, 1):
+        for k in range(12):
+            blk = ["new"] + ["r %d 1" % i for i in range(12)] + ["u 5", "x %d" % ext]
+            a += blk; b += blk
+            for j in range(10):
+                h = j // 2
+                bb = (5 + h) << 5 | (1 << 10)
+                step = [P(0x3ABC, 0x0000 | bb | ((h & 1) << 4) | ((h & 1) << 3) | (j % 4), ((10 + h) << 8) | (20 + h), 0x4141 + 0x0101 * h),
+                        P(0x3ABC, 0x1000 | bb, 0x00E0 + h, 0x0000),
+                        P(0x3ABC, 0x2000 | bb | (j % 4), 0x4141 + 0x0101 * h, 0x6161 + 0x0101 * h),
+                        P(0x3ABC, 0xA000 | bb | (j % 2), 0x4141 + 0x0101 * h, 0x6161 + 0x0101 * h),
+                        P(0x3ABC, 0x4000 | bb | 1, 0xD0C8, 0x1000 | ((20 + j) << 6))]
+                a.append("q"); b.append("r %d 0" % k if j == 4 else ("r %d 1" % k if j == 6 else "q"))
+                a += step; b += step
     if seed % 2 == 1:
         # odd seeds: in run B the callbacks themselves register/unregister other callbacks and change the user data
         # while the library is in the middle of a parse call ("inside or outside callbacks")
         for i in slots[::3]:
             b[i] = "ri %d" % rb.randrange(1, 4)
+    # which callbacks are registered in both runs when op i is executed (empty while callbacks re-register from inside)
+    common = []
+    ra_, rb_ = set(), set(); taint = False
+    for i in range(len(a)):
+        common.append(frozenset() if taint else frozenset(ra_ & rb_))
+        for line, regs in ((a[i], ra_), (b[i], rb_)):
+            w = line.split()
+            if w[0] == "new": regs.clear()
+            elif w[0] == "r" and len(w) == 3:
+                (regs.add if w[2] != "0" else regs.discard)(int(w[1]))
+            elif w[0] == "ri": taint = taint or w[1] != "0"
+        if a[i] == "new" and b[i] == "new": taint = False
     return {"a": a, "b": b, "pairs": [(i, i) for i in range(len(a)) if i >= len(base) or base[i] is not None], "keys": None,
-            "events": False, "ret": True, "nontrivial": len(slots)}
+            "events": False, "ret": True, "nontrivial": len(slots), "common": common}
 
 # ---- C09: texts and clock time are independent of the extended check -----------------------
 def twin_c09(seed, n):
